@@ -163,7 +163,8 @@ PROPS = {
     },
     "C12": {
         "rules": [r_misc.lattice_shape, r_misc.spaceopt, r_viterbi.traceback,
-                  kind_scope("tokenizer", "unknown"), r_cand.cand, r_cand.charrange],
+                  kind_scope("tokenizer", "unknown"), r_cand.cand, r_cand.charrange,
+                  r_misc.optkeep_tokenizer],
         "explanation": "LATTICE: build_lattice_inner resets first, tests reachability, SPACE "
                        "membership and the skipped run at start_node, adds candidates with "
                        "(start_node, start_word), connects EOS from start_node on every path; "
@@ -236,7 +237,7 @@ PROPS = {
     },
     "C03": {
         "rules": [r_cand.cand, r_cand.unkfall, r_cand.unkgroup, r_cand.unkspans, r_cand.charrange,
-                  r_reset.run_tokens],
+                  r_reset.run_tokens, r_misc.optkeep_tokenizer],
         "explanation": "CAND: at every processed position both lexicons are searched over the "
                        "same remaining text, every match is inserted and sets has_matched, and "
                        "gen_unk_words is called exactly once with that flag, the word start and "
@@ -315,7 +316,8 @@ PROPS = {
         "level_note": "Trusted: bincode/bincode_derive; rucrf's derived impls.",
         "technique": "sibling cross-check of encoder/decoder MIR",
     },    "C06": {
-        "rules": [r_map.run, r_scorer.rowrange, kind_scope("dictionary::connector", "dictionary::mapper")],
+        "rules": [r_map.run, r_scorer.rowrange, kind_scope("dictionary::connector", "dictionary::mapper"),
+                  r_misc.optkeep_dictionary],
         "explanation": "MAP rules over the MIR of Dictionary::map_connection_ids_from_iter, "
                        "reset_user_lexicon_from_reader and every map_connection_ids method: the "
                        "one mapper reaches every id-carrying component on all successful paths "
@@ -383,7 +385,8 @@ PROPS = {
 
 # Rules added after the first full pass: text appended to the entries above.
 _ADDED = {
-    "C03": ("CHARRANGE: parse_char_range stores (lower, upper + 1) and from_reader overwrites "
+    "C03": ("OPTKEEP: the Tokenizer option setters return their receiver with one field assigned "
+            "(max_grouping_len survives ignore_space and vice versa). CHARRANGE: parse_char_range stores (lower, upper + 1) and from_reader overwrites "
             "exactly [start, end) per range line, in file order. RESET (token scope): the "
             "per-sentence category and run-length tables are rebuilt before candidates are "
             "generated. UNKSPAN: candidate spans as linear relations - the grouped candidate is start..start+run "
